@@ -40,6 +40,7 @@ type c08PreFile struct {
 	UpdatedAge time.Duration `json:"updated_age_ns,omitempty"`
 	NoCreated  bool          `json:"no_created,omitempty"`
 	NoUpdated  bool          `json:"no_updated,omitempty"`
+	MtimeAge   time.Duration `json:"mtime_age_ns,omitempty"` // the file's modification time is set this long before the start
 }
 
 type c08Thread struct {
@@ -75,6 +76,10 @@ type c08Scenario struct {
 	// storage so slow that a heartbeat leaves the lock file empty for Gap between truncate and write
 	Gap time.Duration `json:"gap_ns,omitempty"`
 	Tol time.Duration `json:"tol_ns,omitempty"` // time tolerance of the comparison, default c08Tol
+	// SlowRemove: these child processes (pid -> delay) run under `strace -e inject=unlinkat:delay_enter=...`:
+	// their os.Remove calls take effect that much later (widens the window between a waiter's staleness
+	// judgement and its removal of the lock file)
+	SlowRemove map[int]time.Duration `json:"slow_remove_ns,omitempty"`
 	// Trace: the child processes run under strace; their system calls on the lock file are compared
 	// with the model's steps (case kind 2)
 	Trace bool `json:"trace,omitempty"`
@@ -168,8 +173,12 @@ func c08WritePre(fs *certmagic.FileStorage, name string, pre c08PreFile, base ti
 	if err := os.MkdirAll(filepath.Dir(fn), 0o700); err != nil {
 		return rel, err
 	}
+	mt := base.Add(-pre.MtimeAge)
 	if pre.Kind == "dir" { // something that is not a regular file sits at the lock file's path
-		return rel, os.Mkdir(fn, 0o755)
+		if err := os.Mkdir(fn, 0o755); err != nil {
+			return rel, err
+		}
+		return rel, os.Chtimes(fn, mt, mt)
 	}
 	var content string
 	switch pre.Kind {
@@ -196,7 +205,10 @@ func c08WritePre(fs *certmagic.FileStorage, name string, pre c08PreFile, base ti
 		b, _ := json.Marshal(m)
 		content = string(b) + "\n"
 	}
-	return rel, os.WriteFile(fn, []byte(content), 0o644)
+	if err := os.WriteFile(fn, []byte(content), 0o644); err != nil {
+		return rel, err
+	}
+	return rel, os.Chtimes(fn, mt, mt)
 }
 
 // c08Run executes one scenario against the real code.
@@ -298,6 +310,9 @@ func c08Run(tmproot string, sc c08Scenario) (*c08Result, error) {
 		if sc.Gap > 0 {
 			cmd = exec.Command("strace", "-f", "-o", "/dev/null", "-e", "trace=ftruncate", "-e",
 				fmt.Sprintf("inject=ftruncate:delay_exit=%d", sc.Gap.Microseconds()), os.Args[0], "C08", "child", "0", dir, string(b))
+		} else if d := sc.SlowRemove[th.Pid]; d > 0 {
+			cmd = exec.Command("strace", "-f", "-o", "/dev/null", "-e", "trace=unlink,unlinkat", "-e",
+				fmt.Sprintf("inject=unlink,unlinkat:delay_enter=%d", d.Microseconds()), os.Args[0], "C08", "child", "0", dir, string(b))
 		} else if sc.Trace {
 			cmd = exec.Command("strace", "-f", "-o", filepath.Join(dir, fmt.Sprintf("trace.%d", th.Pid)), "-e",
 				"trace=openat,open,creat,read,write,ftruncate,truncate,fsync,fdatasync,close,unlink,unlinkat,rename,renameat,renameat2",
@@ -668,9 +683,9 @@ func c08Emit(w *emit.Writer, res *c08Result) {
 		case "absent":
 			e.Int(0)
 		case "empty", "ws":
-			e.Int(1)
+			e.Int(1).Z(-int64(sc.Pre.MtimeAge))
 		case "garbage", "truncated", "dir":
-			e.Int(2)
+			e.Int(2).Z(-int64(sc.Pre.MtimeAge))
 		case "meta":
 			e.Int(3)
 			if sc.Pre.NoCreated {
@@ -683,6 +698,7 @@ func c08Emit(w *emit.Writer, res *c08Result) {
 			} else {
 				e.Bool(true).Z(res.PreAbs[1])
 			}
+			e.Z(-int64(sc.Pre.MtimeAge))
 		}
 		e.Len(len(evs))
 		for _, x := range evs {
@@ -696,7 +712,19 @@ func c08Emit(w *emit.Writer, res *c08Result) {
 		if sc.Tol > 0 {
 			tol = sc.Tol
 		}
-		e.Z(mh).Z(int64(tol)).Z(int64(c08Jit)).Z(int64(sc.Gap)).Len(len(obs))
+		e.Z(mh).Z(int64(tol)).Z(int64(c08Jit)).Z(int64(sc.Gap))
+		var slow []int
+		for pid := range sc.SlowRemove {
+			if pids[pid] {
+				slow = append(slow, pid)
+			}
+		}
+		sort.Ints(slow)
+		e.Len(len(slow))
+		for _, pid := range slow {
+			e.Int(pid).Z(int64(sc.SlowRemove[pid]))
+		}
+		e.Len(len(obs))
 		for _, o := range obs {
 			e.Int(o.Tid).Int(o.Outcome).Z(o.Ret)
 		}
@@ -795,11 +823,13 @@ func c08Table(r *rand.Rand, tier string) []c08Scenario {
 		{"zero-updated-new-created", c08PreFile{Kind: "meta", CreatedAge: c08ms(1000), NoUpdated: true}},
 		{"no-times", c08PreFile{Kind: "meta", NoCreated: true, NoUpdated: true}},
 		{"old-created-fresh-updated", c08PreFile{Kind: "meta", CreatedAge: c08ms(3600000), UpdatedAge: c08ms(4000)}},
-		{"empty", c08PreFile{Kind: "empty"}},
-		{"whitespace", c08PreFile{Kind: "ws"}},
-		{"truncated-json", c08PreFile{Kind: "truncated"}},
-		{"garbage", c08PreFile{Kind: "garbage"}},
-		{"directory-at-lock-path", c08PreFile{Kind: "dir"}},
+		{"empty-old", c08PreFile{Kind: "empty", MtimeAge: c08ms(30000)}},
+		{"empty-just-modified", c08PreFile{Kind: "empty"}},
+		{"whitespace-old", c08PreFile{Kind: "ws", MtimeAge: c08ms(11500)}},
+		{"truncated-json", c08PreFile{Kind: "truncated", MtimeAge: c08ms(25000)}},
+		{"garbage", c08PreFile{Kind: "garbage", MtimeAge: c08ms(12000)}},
+		{"garbage-just-modified", c08PreFile{Kind: "garbage"}},
+		{"directory-at-lock-path", c08PreFile{Kind: "dir", MtimeAge: c08ms(40000)}},
 	}
 	var out []c08Scenario
 	add := func(name string, p c08PreFile, c ctxk) {
@@ -811,8 +841,20 @@ func c08Table(r *rand.Rand, tier string) []c08Scenario {
 			add(p.name, p.p, c)
 		}
 	}
+	// the lock files of dead holders again with a context that lives longer than the recovery bound: a
+	// Lock that returns an error or still waits when the file has long been stale fails the recovery clause
+	for _, p := range pres {
+		switch p.name {
+		case "updated-10.15s", "zero-updated-old-created", "no-times", "empty-old", "whitespace-old", "truncated-json", "garbage", "directory-at-lock-path":
+			out = append(out, c08Scenario{Name: "table/" + p.name + "/deadline7000", Class: "decision-table", Pre: p.p,
+				Threads: []c08Thread{{Tid: 0, Pid: 0, Name: "Lock Name+1", StartAt: c08ms(20), HoldFor: -1, CancelAt: c08ms(7000)}}, Horizon: c08ms(7400)})
+		}
+	}
 	// shorter deadlines for the files that make Lock wait
-	add("empty", c08PreFile{Kind: "empty"}, ctxk{"deadline1300", c08ms(1300)})
+	add("empty-old", c08PreFile{Kind: "empty", MtimeAge: c08ms(30000)}, ctxk{"deadline1300", c08ms(1300)})
+	// an empty file modified 6.9 s ago: given up only when that becomes more than 10 s (3.15 s into the scenario)
+	out = append(out, c08Scenario{Name: "table/empty-modified-6.9s-ago/deadline4500", Class: "decision-table", Pre: c08PreFile{Kind: "empty", MtimeAge: c08ms(6855)},
+		Threads: []c08Thread{{Tid: 0, Pid: 0, Name: "Lock Name+1", StartAt: c08ms(20), HoldFor: -1, CancelAt: c08ms(4500)}}, Horizon: c08ms(5000)})
 	add("fresh", c08PreFile{Kind: "meta", CreatedAge: c08ms(100), UpdatedAge: c08ms(100)}, ctxk{"deadline400", c08ms(400)})
 	// random ages around the staleness threshold, kept away from the poll instants
 	n := 10
@@ -924,10 +966,16 @@ func c08Scenarios(tier string, r *rand.Rand) []c08Scenario {
 		{Name: "long-hold-after-stale-takeover", Class: "stale-prefile", Pre: c08PreFile{Kind: "meta", CreatedAge: c08ms(90000), UpdatedAge: c08ms(20000)},
 			Threads: []c08Thread{{Tid: 0, Name: n, StartAt: c08ms(200), HoldFor: c08ms(12500), CancelAt: long}, {Tid: 1, Pid: 1, Name: n, StartAt: c08ms(900), HoldFor: c08ms(200), CancelAt: long}},
 			Horizon: c08ms(15000)},
-		{Name: "long-hold-after-empty-takeover", Class: "empty-prefile", Pre: c08PreFile{Kind: "empty"},
+		{Name: "long-hold-after-empty-takeover", Class: "empty-prefile", Pre: c08PreFile{Kind: "empty", MtimeAge: c08ms(60000)},
 			Threads: []c08Thread{{Tid: 0, Name: n, StartAt: c08ms(200), HoldFor: c08ms(12500), CancelAt: long}, {Tid: 1, Name: n, StartAt: c08ms(3100), HoldFor: c08ms(200), CancelAt: long}},
 			Horizon: c08ms(16500)},
-		{Name: "empty-file-then-release", Class: "empty-prefile", Pre: c08PreFile{Kind: "empty"},
+		// the documented race after a crash: waiter 1 (slow unlink: 600 ms) judges the dead holder's file
+		// stale; before its os.Remove takes place waiter 0 has removed the file, created its own and holds;
+		// the late os.Remove deletes waiter 0's live lock file and waiter 1 holds too (known finding C08-stale-race)
+		{Name: "stale-race-after-crash", Class: "stale-race", Pre: c08PreFile{Kind: "meta", CreatedAge: c08ms(90000), UpdatedAge: c08ms(40000)},
+			Threads: []c08Thread{{Tid: 0, Pid: 1, Name: n, StartAt: c08ms(500), HoldFor: c08ms(2000), CancelAt: long}, {Tid: 1, Pid: 2, Name: n, StartAt: c08ms(250), HoldFor: c08ms(500), CancelAt: long}},
+			SlowRemove: map[int]time.Duration{2: c08ms(600)}, Horizon: c08ms(4500)},
+		{Name: "empty-file-then-release", Class: "empty-prefile", Pre: c08PreFile{Kind: "empty", MtimeAge: c08ms(60000)},
 			Threads: []c08Thread{{Tid: 0, Name: n, StartAt: c08ms(100), HoldFor: c08ms(1000), CancelAt: long}, {Tid: 1, Name: n, StartAt: c08ms(300), HoldFor: c08ms(100), CancelAt: long}},
 			Horizon: c08ms(5000)},
 	}
@@ -937,6 +985,14 @@ func c08Scenarios(tier string, r *rand.Rand) []c08Scenario {
 		scs = append(scs, c08Scenario{Name: "slow-truncate-live-holder", Class: "slow-storage-empty-count", Gap: c08ms(1300), Tol: c08ms(1200),
 			Threads: []c08Thread{{Tid: 0, Pid: 1, Name: n, StartAt: c08ms(250), HoldFor: c08ms(13250)}, {Tid: 1, Name: n, StartAt: c08ms(500), HoldFor: c08ms(200), CancelAt: long}},
 			Horizon: c08ms(16000)})
+	}
+	if _, err := exec.LookPath("strace"); err == nil {
+		// storage slower still: one truncate -> write gap of 2.3 s is longer than the eight empty-read
+		// retries (8 x 250 ms). Before the modification-time guard the waiter gave up on the live holder's
+		// empty file within that ONE gap (finding C08-write-gap-longer-than-retries, fixed); now it keeps waiting
+		scs = append(scs, c08Scenario{Name: "slow-truncate-gap-longer-than-retries", Class: "slow-storage-long-gap", Gap: c08ms(2300), Tol: c08ms(1200),
+			Threads: []c08Thread{{Tid: 0, Pid: 1, Name: n, StartAt: c08ms(250), HoldFor: c08ms(9000)}, {Tid: 1, Name: n, StartAt: c08ms(500), HoldFor: c08ms(200), CancelAt: long}},
+			Horizon: c08ms(12000)})
 	}
 	if tier == "thorough" {
 		// holder killed at a random moment (kept away from its heartbeat instants); the waiter's
